@@ -155,7 +155,8 @@ type StatementExpr struct {
 }
 
 type StatementReturn struct {
-	Expr Expr
+	Expr  Expr
+	token Token
 }
 
 type StatementBreak struct {
@@ -215,7 +216,12 @@ func (*StatementForIn) statementNode()    {}
 func (stmt *StatementBlock) Token() Token    { return stmt.token }
 func (stmt *StatementPrint) Token() Token    { return stmt.token }
 func (stmt *StatementExpr) Token() Token     { return stmt.Expr.Token() }
-func (stmt *StatementReturn) Token() Token   { return stmt.Expr.Token() }
+func (stmt *StatementReturn) Token() Token {
+	if stmt.Expr == nil {
+		return stmt.token
+	}
+	return stmt.Expr.Token()
+}
 func (stmt *StatementBreak) Token() Token    { return stmt.token }
 func (stmt *StatementContinue) Token() Token { return stmt.token }
 func (stmt *StatementNext) Token() Token     { return stmt.token }
